@@ -39,7 +39,7 @@ type DB struct {
 
 var _ dbm.DB = (*DB)(nil)
 
-func New() *DB { return &DB{t: btree.NewG[item](32, less)} }
+func New() *DB { return &DB{t: btree.NewG[item](8, less)} }
 
 // Snapshot returns the current content; later writes to the DB do not affect it.
 func (db *DB) Snapshot() *Snapshot {
